@@ -17,6 +17,15 @@ def run(ctx, model_ok):
         ctx.cov["traces_validated_against_impl"] = st["meshes"]
         ctx.cov["samples"] = st.pop("samples")
         ctx.cov["correspondence"] = st
+        si = mesh_family.run_inwards(ctx, ctx.scale(200, 10000))
+        ctx.cov["evaluations"] += si["meshes"]
+        ctx.cov["distinct_nontrivial"] += si["distinct"]
+        ctx.cov["traces_validated_against_impl"] += si["meshes"]
+        ctx.cov["samples"] += si.pop("samples")
+        ctx.cov["correspondence_inwards"] = si
+        ctx.cov["rule"] += ("; inwards: get_inwards_mask + fix_trimesh_orientation vs the model, half of the cases closed bodies (1-3 cubes/tetrahedra/octahedra, apart or "
+                            "not, random flips) with the real is_facet_inwards whose verdicts are handed to the model, half arbitrary triples with is_facet_inwards replaced "
+                            "by a random table; compared: mask and returned faces, exactly")
     budget = 4 if len(ctx.broken) else 1
     fails, ost = oracle.sweep(ctx, ctx.scale(16, 600) * budget)
     ctx.failing += fails
@@ -24,8 +33,8 @@ def run(ctx, model_ok):
     ctx.cov.setdefault("evaluations", ost["c16_meshes"])
     ctx.cov.setdefault("distinct_nontrivial", ost["c16_meshes"])
     ctx.cov.setdefault("samples", [ost])
-    ctx.cov["not_shown"] = ["get_disconnected_faces_subsets = partition into vertex-connected components (model tied exactly by the mesh stream; theorem not proved)",
-                            "get_inwards_mask propagation, the seed's ray test, inside test and self-intersection test (float geometry with absolute tolerances): permutation/flip/derived-mesh oracle only"]
+    ctx.cov["not_shown"] = ["the seed's ray test (is_facet_inwards), inside test and self-intersection test (float geometry with absolute tolerances), hence 'consistent => all outwards' "
+                            "(needs a correct seed verdict and the orientability of closed non-self-intersecting surfaces): permutation/flip/derived-mesh oracle only"]
 
 
 def replay(ctx, payload):
